@@ -340,8 +340,25 @@ def rule_tracker(ctx):
         want = {v for v in table.values() if v == camel(suffix)} or {v for v in table.values() if v.startswith(camel(suffix))}
         got = set()
         undecided = False
+        def tests_enum(x):
+            return any(g_.kind == 'enum' and g_.extra == ev_enum for g_ in x.guards.values())
+        eb = b
+        hs = {F.callee_body(c).id for c in b.calls.values() if F.callee_body(c) is not None and F.callee_body(c).id != b.id and F.callee_body(c).impl_self == ev_enum
+              and tests_enum(F.callee_body(c))}
+        if hs and not tests_enum(b):
+            # a helper written in terms of other helpers (`self.match_x(t).is_some() || self.match_y(t).is_some()`): those are inlined for this evaluation
+            try:
+                import flatten as _fl
+                from core import Body as _Body
+                nd_, inl_ = _fl.inline_dict(F, b.d, b.crate, hs, {})
+                if inl_:
+                    nd_, _ = _fl.thread_dict(nd_)
+                    eb = _Body(F, b.crate, nd_)
+                    eb.unit, eb.unit_is_test = getattr(b, 'unit', None), getattr(b, 'unit_is_test', False)
+            except Exception:
+                eb = b
         for v in table.values():
-            r = closure_result_under_variant(b, ev_enum, v)
+            r = closure_result_under_variant(eb, ev_enum, v)
             if r in ('yes', 'maybe'):
                 got.add(v)
             elif r == 'unknown':
@@ -597,12 +614,28 @@ def rule_identity(ctx):
                 why = 'the returned node is neither the found nor the created one'
             # the node data holds the same key
             do = b.orig_operand(ad.args[1])
+
+            def carries(os_, depth=0):
+                # the given key itself, an aggregate holding it, or a local constructor that is handed it (`NodeData::Task(TaskData::new(task))`)
+                if not os_ or depth > 3:
+                    return False
+                if all(q.kind == 'arg' and q.key == 2 for q in os_):
+                    return True
+                for q in os_:
+                    if q.kind == 'aggr' and not q.path:
+                        rv_ = b.blocks[q.key[0]]['stmts'][q.key[1]]['rv']
+                        if any(carries(b.orig_operand(F.operand(x)), depth + 1) for x in rv_['ops']):
+                            return True
+                    elif q.kind == 'call' and not q.path and q.key in b.calls and F.callee_body(b.calls[q.key]) is not None and F.callee_body(b.calls[q.key]).crate == 'pie':
+                        if any(carries(b.orig_operand(a), depth + 1) for a in b.calls[q.key].args):
+                            return True
+                return False
             ok_data = False
             for o in do:
                 if o.kind == 'aggr':
                     rv = b.blocks[o.key[0]]['stmts'][o.key[1]]['rv']
                     for x in rv['ops']:
-                        if all(q.kind == 'arg' and q.key == 2 for q in b.orig_operand(F.operand(x))) and b.orig_operand(F.operand(x)):
+                        if carries(b.orig_operand(F.operand(x))):
                             ok_data = True
             if not ok_data:
                 good = False
@@ -706,6 +739,9 @@ def rule_map(ctx):
                 # `let v = occupied.into_mut(); ... *v = new` (also get_mut): a store through the reference into the occupied slot
                 for (bb, si, pl, rv, ln) in x.stores:
                     if any(o.kind == 'call' and x.calls[o.key].name in ('into_mut', 'get_mut') and 'OccupiedEntry' in (x.calls[o.key].impl_self or '') for o in x.orig_local(pl[0])):
+                        repl.append((x, bb))
+                    # `if let Some(v) = map.get_mut(&id) { if !v.is::<V>() { *v = new } }` before the entry chain: a store into the found slot
+                    elif any(o.kind == 'call' and x.calls[o.key].qname == 'std::collections::HashMap::get_mut' for o in x.orig_local(pl[0])):
                         repl.append((x, bb))
             for c in x.calls.values():
                 if c.name == 'insert' and 'OccupiedEntry' in (c.impl_self or ''):
